@@ -849,6 +849,10 @@ def do_indent(
     if isinstance(s, Markup):
         indention = escape(indention)
         newline = Markup(newline)
+    else:
+        # a Markup indentation would escape the lines of a plain text it is
+        # prepended to (and not the others); the result is a plain string
+        indention = str(indention)
 
     # this quirk is necessary for splitlines method; not ``+=``, which would
     # extend a list or deque passed by mistake in place before failing
